@@ -1188,7 +1188,11 @@ class PDFPageInterpreter:
 
     def do_EI(self, obj: PDFStackT) -> None:
         """End inline image object"""
-        if isinstance(obj, PDFStream) and "W" in obj and "H" in obj:
+        if (
+            isinstance(obj, PDFStream)
+            and obj.get_any(("W", "Width")) is not None
+            and obj.get_any(("H", "Height")) is not None
+        ):
             iobjid = str(id(obj))
             self.device.begin_figure(iobjid, (0, 0, 1, 1), MATRIX_IDENTITY)
             self.device.render_image(iobjid, obj)
